@@ -119,9 +119,9 @@ class Node(object):
             if nsmap == node.nsmap:
                 node.nsmap = nsmap
             else:
+                # copy-on-write: the current map may be shared with nodes outside this subtree
+                node.nsmap = copy.deepcopy(node.nsmap)
                 for prefix in nsmap:
-                    if prefix not in node.nsmap:
-                        node.nsmap = copy.deepcopy(node.nsmap)
                     node.nsmap[prefix] = nsmap[prefix]
 
         for child in node.children:
